@@ -14,7 +14,7 @@ use serde_json::json;
 use std::collections::HashMap;
 use std::sync::Mutex;
 
-pub const RULE: &str = "histories as in C02 (walk-heavy from few roots so that identities recur by different move orders): after every op game.zobrist must equal zobrist::hash(game); a run-wide map identity(placement, side, rights, e.p. target) -> key must stay a function and injective on everything explored. Twins: for generated positions, the same position with e.p. target removed/moved, one right flipped, side flipped, one piece moved/changed/removed must have a different key. Components: all 768 piece-square + 4 castling + 64 e.p. + no-e.p. + side words read back through the public API are pairwise distinct and non-zero (exhaustive). Non-trivial history = contains a rook captured at home with the right present, an e.p. target set then cleared, a null move with an e.p. target pending, castling or a promotion; distinct by (root, op list).";
+pub const RULE: &str = "histories as in C02 (walk-heavy from few roots so that identities recur by different move orders): after every op game.zobrist must equal zobrist::hash(game); a run-wide map identity(placement, side, rights, e.p. target) -> key must stay a function and injective on everything explored. Twins: for generated positions, the same position with e.p. target removed/moved, one right flipped, side flipped, one piece moved/changed/removed must have a different key, and the same position with another halfmove clock / move number (as reached along a longer or shorter path) must have the same key. Components: all 768 piece-square + 4 castling + 64 e.p. + no-e.p. + side words read back through the public API are pairwise distinct and non-zero (exhaustive). Non-trivial history = contains a rook captured at home with the right present, an e.p. target set then cleared, a null move with an e.p. target pending, castling or a promotion; distinct by (root, op list).";
 
 type Ident = [u8; 35];
 
@@ -335,6 +335,35 @@ pub fn run(run: &mut Run) -> &'static str {
                 }
                 if k2 == key {
                     return Err(Fail::new(&format!("twin:same_key:{what}"), format!("{} and its twin {} ({what}) have the same key {key:#x}", p.to_fen(), tw.to_fen())).explicit(explicit_fen(p)));
+                }
+            }
+            // the same position with other counters (as it is reached along a longer or shorter path) is
+            // the same position: one key. The key computed from scratch and the key carried after a null
+            // move and its take-back are both compared.
+            for _ in 0..2 {
+                st.eval();
+                st.class("same_position_other_counters");
+                let mut q = p.clone();
+                q.halfmove = match tp.pick(8) {
+                    0 => 0,
+                    1 => 63 + tp.pick(3) as u32,
+                    2 => 99 + tp.pick(3) as u32,
+                    3 => 127 + tp.pick(3) as u32,
+                    4 => 255 + tp.pick(3) as u32,
+                    _ => tp.pick(300) as u32,
+                };
+                q.fullmove = 1 + q.halfmove / 2 + tp.pick(400) as u32;
+                if q.halfmove == p.halfmove && q.fullmove == p.fullmove {
+                    continue;
+                }
+                let gq = to_game(&q);
+                let k2 = zobrist::hash(&gq).0;
+                if k2 != key || gq.zobrist.0 != key {
+                    return Err(Fail::new(
+                        "counters_change_key",
+                        format!("{} and {} are the same position (only the halfmove clock / move number differ) but have keys {key:#x} and {k2:#x} (carried {:#x})", p.to_fen(), q.to_fen(), gq.zobrist.0),
+                    )
+                    .explicit(explicit_fen(&q)));
                 }
             }
         }
